@@ -1,0 +1,20 @@
+//go:build verif
+
+package socket
+
+// Contracts checked by /verif/govc (comment-only file; build tag verif).
+
+// C02 — one response per command when the exchange succeeds
+//@ func (*sock).Send
+//@   props C02
+//@   ensures complete: result.1 == nil ==> len(result.0) == len(command)
+//@   ensures partial:  result.1 != nil ==> len(result.0) < len(command) || len(command) == 0
+//@   loop 1 invariant count: 0 <= $idx(1) && $idx(1) <= len(command) && len(msg) == $idx(1)
+//@ end
+
+// the interface as seen by its clients (same contract; implemented by *sock)
+//@ func (HAProxySocket).Send
+//@   trusted
+//@   modifies heap
+//@   ensures complete: result.1 == nil ==> len(result.0) == len(command)
+//@ end
